@@ -402,12 +402,12 @@ def validate_trace(module, cfg, trace_path, env=None, timeout=600, xmx="4g", dfs
     if env:
         e.update(env)
     r = tlc(module, cfg, env=e, workers=1, timeout=timeout, xmx=xmx, dfs=dfs)
+    if r.violation and r.violation not in ("postcondition",):
+        # an invariant / action property of the module failed on an observed execution
+        return False, -1, r
     m = re.search(r'"REJECTED_AT_LINE", (\d+)', r.out)
     if m:
         return False, int(m.group(1)), r
-    if r.violation and r.violation not in ("postcondition",):
-        # an invariant of the module failed on an observed execution
-        return False, -1, r
     if r.error:
         raise HarnessError("trace validation of %s failed to run: %s" % (trace_path, r.error))
     if r.violation == "postcondition":
